@@ -19,15 +19,15 @@ pub struct Plan {
 fn plan(prop: &str, tier: &str) -> Plan {
     let thorough = tier == "thorough";
     let (q, t, len) = match prop {
-        "C03" => (2400, 60_000, 50),
-        "C04" => (2400, 60_000, 50),
-        "C05" => (2400, 60_000, 50),
-        "C06" => (3000, 80_000, 40),
-        "C10" => (1600, 30_000, 40),
-        "C11" => (3000, 80_000, 50),
-        "C12" => (3000, 80_000, 60),
-        "C13" => (2000, 40_000, 30),
-        "C14" => (2000, 40_000, 30),
+        "C03" => (8000, 150_000, 50),
+        "C04" => (12000, 200_000, 50),
+        "C05" => (12000, 200_000, 50),
+        "C06" => (15000, 250_000, 40),
+        "C10" => (8000, 120_000, 40),
+        "C11" => (8000, 150_000, 50),
+        "C12" => (15000, 250_000, 60),
+        "C13" => (10000, 150_000, 30),
+        "C14" => (10000, 150_000, 30),
         _ => (1000, 10_000, 40),
     };
     Plan {
@@ -36,7 +36,7 @@ fn plan(prop: &str, tier: &str) -> Plan {
     }
 }
 
-const STRUCTURAL: [Kind; 19] = [
+const STRUCTURAL: [Kind; 20] = [
     Kind::CreateSub,
     Kind::CreateSubAt,
     Kind::CreateNamed,
@@ -53,6 +53,7 @@ const STRUCTURAL: [Kind; 19] = [
     Kind::Sort,
     Kind::LoadBuffer,
     Kind::LoadSelf,
+    Kind::EnsureChain,
     Kind::RemoveFile,
     Kind::RemoveFromFile,
     Kind::SetData,
@@ -67,7 +68,9 @@ fn profile_for(prop: &str, rng: &mut Rng) -> Profile {
         .with(Kind::RemoveFile, 3)
         .with(Kind::CreateFile, 3)
         .with(Kind::LoadBuffer, 4)
-        .with(Kind::LoadSelf, 3);
+        .with(Kind::LoadSelf, 3)
+        .with(Kind::EnsureChain, 0)
+        .with(Kind::MergeConflict, 0);
     match prop {
         "C03" => {
             let mut p = base.with_all(&[Kind::Move, Kind::MoveAt, Kind::Remove, Kind::Copy, Kind::CreateSub, Kind::CreateNamed], 18);
@@ -103,7 +106,7 @@ fn profile_for(prop: &str, rng: &mut Rng) -> Profile {
             p
         }
         "C11" => {
-            let mut p = base;
+            let mut p = base.with(Kind::LoadBuffer, 14).with(Kind::LoadSelf, 6).with(Kind::MergeConflict, 8);
             p.hostile_pct = if rng.chance(1, 2) { 50 } else { 25 };
             p.stale_pct = 8;
             p
@@ -365,12 +368,23 @@ fn post_check(ctx: &mut StepCtx, w: &World, op: &Op, pre: &Pre, out: &Outcome) -
             }
         }
         "C11" => {
-            if let (Some(before), Some(variant)) = (&pre.full, out.err_variant()) {
+            // EnsureChain is a sequence of calls made by the harness, not one library call
+            if let (Some(before), Some(variant), false) = (&pre.full, out.err_variant(), op.kind() == Kind::EnsureChain) {
                 *ctx.err_variants.entry(variant.to_string()).or_insert(0) += 1;
                 for (m, model) in w.models.iter().enumerate().take(before.len()) {
                     let after = dump_full(model);
                     if after != before[m] {
-                        let section = if before[m].split("--files").next() != after.split("--files").next() { "tree" } else { "tables" };
+                        let strip = |d: &str| -> String {
+                            // the element tree without file membership annotations
+                            d.split("--files").next().unwrap_or("").lines().map(|l| l.split(" files=[").next().unwrap_or(l)).collect::<Vec<_>>().join("\n")
+                        };
+                        let section = if strip(&before[m]) != strip(&after) {
+                            "tree-content"
+                        } else if before[m].split("--files").next() != after.split("--files").next() {
+                            "file-sets-of-elements"
+                        } else {
+                            "tables"
+                        };
                         viols.push(mk(
                             "failed-call-has-effect",
                             &format!("{:?}:{variant}:{section}", op.kind()),
@@ -427,6 +441,11 @@ pub fn initial_world(prop: &str, rng: Rng, case: u64) -> (World, Profile, usize)
     if prop == "C14" || prop == "C12" {
         // C14 judges sort results, C12 wants the panics: cyclic names are a known finding with its own witness
         w.masks.no_cyclic_names = true;
+    }
+    if prop == "C11" {
+        // failing loads are the point of C11
+        w.masks.no_failing_merge = false;
+        w.masks.no_unsorted_merge = false;
     }
     if prop == "C03" {
         // tree shape does not depend on unique paths: explore unsorted, partial and failing merges as well
@@ -638,7 +657,11 @@ pub fn run(prop: &str, rep: &mut Report, tier: &str) {
             rep.require("monitor.references_inspected", 20);
         }
         "C13" | "C14" => rep.require("monitor.references_inspected", 300),
-        "C11" => rep.require("failing_calls_checked", 3000),
+        "C11" => {
+            rep.require("failing_calls_checked", 3000);
+            rep.require("failing_calls.InvalidFileMerge", 5);
+            rep.require("failing_calls.OverlappingDataError", 5);
+        }
         _ => {}
     }
 }
